@@ -36,7 +36,7 @@ def run(tier):
             s = rng.choice(["s1", "s2", "s3"])
             r = rng.random()
             h.append("create %s %d 0" % (s, rng.choice([1, 2])) if r < 0.3 else "destroy " + s if r < 0.45
-                     else "invoke %s n1" % s if r < 0.75 else "fnaddr %s n1" % s)
+                     else "invoke %s n1" % s if r < 0.70 else "invoke %s nope" % s if r < 0.78 else "fnaddr %s n1" % s)
         lines += h
         expected += [None] * len(h)
     drvs = vp.build_many([("sbx_vm", ["sbx_driver.cpp"], ["-DBK_VM"])])
